@@ -630,8 +630,8 @@ def _run_plan(plan, trace=False):
         # would make this simulation vacuous
         if any(S.b0 is not None for S in sessions) and (kern.counters["seam:open"] == 0 or kern.counters["seam:trylock"] == 0):
             raise K.HarnessError(f"SEAM-LOST C04: open={kern.counters['seam:open']} trylock={kern.counters['seam:trylock']}")
-        if any(not os.path.islink(os.path.join(os.getcwd(), f)) for f in os.listdir(os.getcwd())):
-            raise K.HarnessError(f"SEAM-LOST C04: a real file appeared in the sandbox directory: {os.listdir(os.getcwd())}")
+        if any(not K.REAL_ISLINK(os.path.join(os.getcwd(), f)) for f in K.REAL_LISTDIR(os.getcwd())):
+            raise K.HarnessError(f"SEAM-LOST C04: a real file appeared in the sandbox directory: {K.REAL_LISTDIR(os.getcwd())}")
         _oracles(plan, kern, sched, sessions, marks, res, limit_hit)
 
         # D: final durability, read by a fresh process
